@@ -20,7 +20,9 @@ import c01_wire
 import c01z as Z
 from lib import gz, gtext, glist, gbool, gopt
 
-THEOREMS = ['C01_xml_rt', 'C01_xml_rt_spyne']
+THEOREMS = ['C01_xml_rt', 'C01_xml_rt_spyne']                                   # Props/C01.v (shared model Wire/Xml.v)
+THEOREMS_X = ['C01_xmlx_rt', 'C01_leaf_sound', 'C01_xmlx_rt_spyne']             # Props/C01_x.v (C01/XmlX.v)
+THEOREMS_CALL = ['C01_call_fidelity', 'C01_call_fidelity_spyne']                # Props/C01_call.v (C01/Call.v)
 FUEL = 40
 XSI = X.XSI
 
@@ -630,6 +632,8 @@ def run(check):
     check.regen(['numtypes'])
     check.check_sources()
     check.prove('Props.C01', THEOREMS)
+    check.prove('Props.C01_x', THEOREMS_X)
+    check.prove('Props.C01_call', THEOREMS_CALL)
     import time
     t0 = time.time()
     for name, fn in (('wire objects', c01_wire.corr_objects), ('x objects', corr_objects_x), ('calls', corr_calls),
